@@ -2,7 +2,7 @@
    Print Assumptions. *)
 From Coq Require Import ZArith NArith List Bool Sorted.
 From Centro Require Import Base.GraphC15 Model.LabelGraph Spec.LabelGraph
-  Proofs.ColorC15 Proofs.DfsC15 Proofs.AccC15 Proofs.EulerC15 Proofs.RelabelC15 Proofs.NeighborsC15.
+  Proofs.ColorC15 Proofs.DfsC15 Proofs.AccC15 Proofs.EulerC15 Proofs.RelabelC15 Proofs.NeighborsC15 Proofs.EulerQuadC15.
 Import ListNotations.
 
 (* ---- all_connected_components / _all_connected_components (Full, including termination) ----
@@ -86,7 +86,22 @@ Theorem C15_first_free_spec : forall colors k,
 Proof. exact first_free_spec. Qed.
 Print Assumptions C15_first_free_spec.
 
+(* ---- euler_number, quad_counts_spec (Full): for every rectangular label image and label l <> 0
+   the four shifted planes, the ten conditions with their slice_00 attribution and
+   scipy.ndimage.sum give 4 W = n(Q1) - n(Q3) - 2 n(QD), the bit-quad counts of the pixel set of l
+   over all 2x2 windows meeting the image (exactly one / exactly three pixels in the set / the two
+   diagonal patterns) ---- *)
+Theorem C15_quad_counts_spec : forall (img : image) (l : Z), rect img -> l <> 0 ->
+  euler4 img l = quad_sum img l isQ1 - quad_sum img l isQ3 - 2 * quad_sum img l isQD.
+Proof. exact quad_counts_spec. Qed.
+Print Assumptions C15_quad_counts_spec.
+
 (* ---- euler_number = 8-components - holes: Finite (exhaustive, bound in the statement) ---- *)
+(* euler_is_components_minus_holes_partial — the general statement
+     forall img l, rect img -> l <> 0 -> euler4 img l = 4 * euler_spec img l
+   is NOT proved: missing is the lemma "deleting an (8,4)-simple pixel changes neither the quad
+   count n(Q1) - n(Q3) - 2 n(QD) nor components - holes" together with a reduction of every
+   finite pixel set to the empty set; only the two exhaustive sweeps below are proved. *)
 Theorem C15_euler_is_components_minus_holes_3x3 : forall h w im l,
   (1 <= h <= 3)%nat -> (1 <= w <= 3)%nat -> length im = h ->
   Forall (fun r => length r = w /\ Forall (fun v => In v [0;1;2]) r) im -> In l [1;2] ->
